@@ -61,7 +61,7 @@ def strip_lean_comments(src):
 
 
 class Ctx:
-    def __init__(self, prop, tier, seed):
+    def __init__(self, prop, tier, seed, replaying=False):
         self.prop, self.tier, self.seed = prop, tier, seed
         self.t0 = time.time()
         self.rng = random.Random(seed)
@@ -74,7 +74,8 @@ class Ctx:
         self.findings = load_known_findings(prop)
         os.makedirs(os.path.join(WORK, "replays"), exist_ok=True)
         import glob
-        for f in glob.glob(os.path.join(WORK, "replays", "%s-%s-%d-*" % (prop, tier, seed))): os.remove(f)
+        if not replaying:     # a replay run reads these files
+            for f in glob.glob(os.path.join(WORK, "replays", "%s-%s-%d-*" % (prop, tier, seed))): os.remove(f)
         os.makedirs(os.path.join(VERIF, "evidence"), exist_ok=True)
 
     # ---------------------------------------------------------------- build
@@ -229,6 +230,32 @@ class Ctx:
         with open(os.path.join(VERIF, "evidence", self.prop + ".json"), "w") as f:
             json.dump(ev, f, indent=1, sort_keys=True)
         return 1 if broken else 0
+
+
+# -------------------------------------------------------------------- generic replay
+def generic_replay(ctx, path, rules, variants=("plain",)):
+    """re-run the request lines of a replay file and print what the compiled code (I) and the Lean model (M) answer.
+    rules: list of (prefix of the line or None, harness command or None, driver command or None, harness variant)"""
+    ctx.setup(variants=variants)
+    head = [l.rstrip("\n") for l in open(path) if l.startswith(("#", "property="))]
+    for l in head[:6]: print(l[:1500])
+    n = 0
+    for line in open(path):
+        l = line.rstrip("\n")
+        if not l or l.startswith(("#", "property=")) or ("\t" not in l and "|" not in l and " " not in l): continue
+        for prefix, hcmd, dcmd, variant in rules:
+            if prefix is None or l.startswith(prefix):
+                print("request:", l[:600])
+                if hcmd:
+                    rc, h, err = ctx.harness_lines(hcmd, [l], variant=variant, timeout=600)
+                    print("I:", (h[0] if h else "(no output, rc=%s %s)" % (rc, err[-200:]))[:6000])
+                if dcmd:
+                    try: print("M:", ctx.driver_lines(dcmd, [l], timeout=600)[0][:6000])
+                    except BrokenTie as e: print("M: (driver refused: %s)" % e.detail[:200])
+                n += 1
+                break
+    if n == 0: print("no request line in %s (the file names a theorem or correspondence that no longer checks)" % path)
+    return 0
 
 
 # -------------------------------------------------------------------- known findings
